@@ -1179,7 +1179,8 @@ class CommandType(DataType):
                 self.argument.compatible(other.argument)
             if self.result != other.result:  # not both are None
                 other.result.compatible(self.result)
-        except AttributeError:
+        except (AttributeError, TypeError):
+            # one of the two has no argument / no result (None), or other is not a command
             raise WrongTypeError('incompatible datatypes') from None
 
 
